@@ -222,7 +222,7 @@ _PREFIX_BODIES = [
     {"parts": [{"n": 1, "terms": [_el("Al", "2"), _el("O", "3")]}], "charge": None, "suffix": ""},
     {"parts": [{"n": 1, "terms": [_el("N"), _el("H"), _el("O")]}], "charge": {"sign": "-", "mag": 1, "explicit1": False},
      "suffix": "(aq)"},
-    {"parts": [{"n": 1, "terms": [{"br": "(", "terms": [_el("N"), _el("H", "4")], "count": "2", "primes": ""}, _el("S")]},
+    {"parts": [{"n": 1, "terms": [{"br": "(", "terms": [_el("N"), _el("H", "4")], "count": "2", "primes": ""}, _el("S", "12")]},
                {"n": 12, "terms": [_el("H", "2"), _el("O")]}], "charge": {"sign": "+", "mag": 3, "explicit1": False},
      "suffix": ""},
 ]
